@@ -76,6 +76,7 @@ func (w *World) conserve(name string, sl *sendLog, busy bool) {
 }
 
 type c02opt struct {
+	mustLive    bool
 	qb, tb      int
 	timerBranch bool
 	tiers       string
@@ -88,7 +89,14 @@ func c02Scenario(name string, o c02opt, build func(w *World, sl *sendLog) (busy 
 			Body: nodeBody(func(w *World) {
 				sl := &sendLog{}
 				busy := build(w, sl)
-				w.Check = func() { w.conserve("R", sl, busy) }
+				w.Check = func() {
+					w.conserve("R", sl, busy)
+					if o.mustLive {
+						if r := w.recs["R"]; len(r.term) > 0 || !w.alive("R") {
+							w.ex.Fail("spurious-termination", "the receiver terminated (%v) although nothing in this scenario kills it or makes it fail; log=%v", r.term, r.log)
+						}
+					}
+				}
 			})})
 	}})
 }
@@ -109,13 +117,14 @@ func init() {
 
 func init() {
 	pb := c02opt{qb: 2, tb: 3}
-	c02Scenario("pid-pid", pb, func(w *World, sl *sendLog) bool {
+	pl := c02opt{qb: 2, tb: 3, mustLive: true}
+	c02Scenario("pid-pid", pl, func(w *World, sl *sendLog) bool {
 		pid := w.spawnProbe("R", probeCfg{}, gen.ProcessOptions{})
 		w.ex.Thread("S1", func() { sl.add("a", w.n.Send(pid, "a")) })
 		w.ex.Thread("S2", func() { sl.add("b", w.n.Send(pid, "b")) })
 		return false
 	})
-	c02Scenario("name-alias", pb, func(w *World, sl *sendLog) bool {
+	c02Scenario("name-alias", pl, func(w *World, sl *sendLog) bool {
 		var al gen.Alias
 		r := &rec{name: "R"}
 		w.recs["R"] = r
@@ -147,7 +156,7 @@ func init() {
 	})
 	for _, size := range []int64{1, 2} {
 		size := size
-		c02Scenario(fmt.Sprintf("bounded%d", size), pb, func(w *World, sl *sendLog) bool {
+		c02Scenario(fmt.Sprintf("bounded%d", size), pl, func(w *World, sl *sendLog) bool {
 			pid := w.spawnProbe("R", probeCfg{}, gen.ProcessOptions{MailboxSize: size})
 			w.ex.Thread("S1", func() { sl.add("a1", w.n.Send(pid, "a1")); sl.add("a2", w.n.Send(pid, "a2")) })
 			w.ex.Thread("S2", func() { sl.add("b1", w.n.Send(pid, "b1")) })
